@@ -193,11 +193,15 @@ func init() {
 			// "with or without a fixed bind port ... even if the call first had to wait its turn": the fixed-port rounds of C09's
 			// workload (calls of several clients queued on one port, overlapping bind addresses, two TCP calls in a row from one port)
 			queue := Batch{Mode: "port-queue", RunAs: "C09", Keys: []string{"second-call-cannot-bind", "not-served-in-turn", "hang", "rejected-in-time-reply", "panic"}, Timeout: 20 * time.Minute, Procs: 8}
+			// "the event listener": what it delivers while datagrams arrive back to back is each datagram's own content, once, in order
+			// (the listener workload of C10; a receive path that hands a shared buffer to another goroutine shows there, not in a race report:
+			// the conflicting write happens inside the kernel)
+			listener := Batch{Mode: "plain", RunAs: "C10", Keys: []string{"event:content", "event:lost", "event:duplicate", "event:reordered", "from-invalid-datagram", "changed-after-delivery", "panic"}, Timeout: 30 * time.Minute, Procs: 4}
 			if tier == "thorough" {
 				return []Batch{{Mode: "race", Race: true, Procs: 2, Timeout: 40 * time.Minute}, {Mode: "race", Race: true, Procs: 4, Timeout: 40 * time.Minute}, {Mode: "race", Race: true, Procs: 16, Timeout: 40 * time.Minute},
-					{Mode: "race", Race: true, Procs: 8, Timeout: 40 * time.Minute}, {Mode: "plain", Procs: 2, Timeout: 40 * time.Minute}, {Mode: "plain", Procs: 16, Timeout: 40 * time.Minute}, {Mode: "plain", Procs: 4, Timeout: 40 * time.Minute}, {Mode: "plain", Procs: 8, Timeout: 40 * time.Minute}, queue}
+					{Mode: "race", Race: true, Procs: 8, Timeout: 40 * time.Minute}, {Mode: "plain", Procs: 2, Timeout: 40 * time.Minute}, {Mode: "plain", Procs: 16, Timeout: 40 * time.Minute}, {Mode: "plain", Procs: 4, Timeout: 40 * time.Minute}, {Mode: "plain", Procs: 8, Timeout: 40 * time.Minute}, queue, listener, listener}
 			}
-			return []Batch{{Mode: "race", Race: true, Procs: 4, Timeout: 15 * time.Minute}, {Mode: "race", Race: true, Procs: 16, Timeout: 15 * time.Minute}, {Mode: "plain", Procs: 2, Timeout: 15 * time.Minute}, {Mode: "plain", Procs: 8, Timeout: 15 * time.Minute}, queue}
+			return []Batch{{Mode: "race", Race: true, Procs: 4, Timeout: 15 * time.Minute}, {Mode: "race", Race: true, Procs: 16, Timeout: 15 * time.Minute}, {Mode: "plain", Procs: 2, Timeout: 15 * time.Minute}, {Mode: "plain", Procs: 8, Timeout: 15 * time.Minute}, queue, listener}
 		}}
 }
 
